@@ -311,8 +311,14 @@ fn gen_params(rng: &mut Rng, subscriber: bool, thorough: bool) -> Params {
 }
 
 fn native_main(args: &Args, rep: &Report) {
-    let subscriber = args.get_u64("subscriber", 0) == 1;
-    if subscriber {
+    // subscriber=1: an ordinary subscriber; subscriber=2: a subscriber whose filter lets nothing
+    // through (a subscriber IS installed, so errors go to tracing - and are filtered there - never in band)
+    let subscriber_mode = args.get_u64("subscriber", 0);
+    let subscriber = subscriber_mode != 0;
+    if subscriber_mode == 2 {
+        let sub = tracing_subscriber::fmt().with_max_level(tracing_subscriber::filter::LevelFilter::OFF).with_writer(std::io::sink).finish();
+        tracing::subscriber::set_global_default(sub).expect("set subscriber");
+    } else if subscriber {
         let sub = tracing_subscriber::fmt().with_writer(std::io::sink).finish();
         tracing::subscriber::set_global_default(sub).expect("set subscriber");
     }
@@ -416,6 +422,44 @@ fn native_main(args: &Args, rep: &Report) {
         }
         rep.count("last_handle_scenarios", 1);
         drop(kept);
+    }
+    // A shutdown timeout shorter than the time the writer has already spent in its current loop
+    // iteration (it is held inside next() for longer than the timeout, with a backlog): the timeout
+    // bounds the FINAL DRAIN, counted from the shutdown; it must not cut the drain short because the
+    // iteration that noticed the shutdown was old. (3 s of timeout for 300 trivial entries: the
+    // timeout itself cannot expire.)
+    for boxed in if !subscriber && rep.violation_count() == 0 { vec![false, true] } else { vec![] } {
+        rep.eval();
+        let sh = StreamShared::new(41);
+        let b = BackgroundQueueBuilder::new().capacity(1024).flush_interval(Duration::from_millis(700)).shutdown_timeout(Duration::from_secs(3));
+        let (append, handle): (Box<dyn Fn(IdEntry) + Send>, _) = if boxed {
+            let (q, h) = b.build_boxed(sh.stream());
+            (Box::new(move |e| q.append_any(e)), h)
+        } else {
+            let (q, h) = b.build::<IdEntry>(sh.stream());
+            (Box::new(move |e| q.append(e)), h)
+        };
+        sh.set_fuel(Some(0));
+        append(IdEntry::new(9, 0));
+        let _ = progress_wait(|| sh.blocked_next.load(Ordering::SeqCst), Duration::from_secs(5));
+        for s in 1..300 {
+            append(IdEntry::new(9, s));
+        }
+        std::thread::sleep(Duration::from_millis(3300));
+        let t = std::thread::spawn(move || handle.shut_down());
+        std::thread::sleep(Duration::from_millis(5));
+        sh.open_all();
+        let _ = t.join();
+        let written = sh.log().iter().filter(|e| e.id().is_some()).count();
+        if written != 300 {
+            rep.violation(
+                "entry-lost",
+                json!({"what": "writer held inside next() for 3.3 s with 299 entries queued behind it (shutdown_timeout 3 s, flush interval 0.7 s), then shut down and released: the final drain has 3 s from the shutdown, nothing may be cut off",
+                       "boxed": boxed, "written": written, "appended": 300}),
+            );
+        }
+        rep.count("stale_iteration_shutdown_scenarios", 1);
+        drop(append);
     }
     // A subscriber installed AFTER a queue was built: from then on a validation failure must be
     // reported through tracing, not in band. (The global subscriber can be set once per process,
